@@ -119,7 +119,7 @@ pub fn apply_real(cp: &mut ControlPoints, op: &Op) {
     }
 }
 
-const PROBES: [f64; 11] = [-2.0, -1.0, -0.5, 0.0, 0.25, 0.5, 1.0, 1.5, 2.0, 3.0, 1e9];
+const PROBES: [f64; 12] = [-2.0, -1.0, -0.5, -0.0, 0.0, 0.25, 0.5, 1.0, 1.5, 2.0, 3.0, 1e9];
 
 fn strictly_increasing(ts: impl Iterator<Item = f64>) -> bool {
     let v: Vec<f64> = ts.collect();
@@ -191,7 +191,7 @@ pub fn check(real: &ControlPoints, r: &RefCp) -> Option<(String, String)> {
 }
 
 pub fn alphabet(tier: Tier) -> Vec<Op> {
-    let times: &[f64] = tier.pick(&[-1.0, 0.0, 1.0, 2.0], &[-1.0, 0.0, 0.5, 1.0, 2.0]);
+    let times: &[f64] = tier.pick(&[-1.0, 0.0, -0.0, 1.0, 2.0], &[-1.0, 0.0, -0.0, 0.5, 1.0, 2.0]);
     let sig = TimeSignature::new_simple_quadruple();
     let mut ops = Vec::new();
     for &time in times {
